@@ -257,11 +257,20 @@ class _JobCtx(object):
 _WORLDS = {}
 
 
+_DEADLINE = [None]
+FAULT_BUDGET = {'quick': 900, 'thorough': 1500}
+
+
 def run_fault_chunk(jobs):
-  out = {'faults': 0, 'raised': 0, 'absorbed': 0, 'violations': []}
+  import time
+  out = {'faults': 0, 'raised': 0, 'absorbed': 0, 'violations': [], 'skipped': {}}
   mon = NoTrace()
   pre_cache = {}
   for (wname, origin, hist, label, bundle, seam, i) in jobs:
+    if _DEADLINE[0] and time.time() > _DEADLINE[0]:
+      d = len(hist) + 1
+      out['skipped'][d] = out['skipped'].get(d, 0) + 1
+      continue
     ctx = _JobCtx(_WORLDS[wname], origin, hist, label, bundle)
     d = ctx.rebuild()
     pre_dump = d.dump()
@@ -309,7 +318,7 @@ P = HistProp('C04', _worlds, lambda w, t: [NoTrace(tier=t)], D,
                   'crossings per bundle); oracle: the call raised => dump, schema, Calculate and the '
                   'behaviour of three follow-up bundles are exactly those of an engine that never saw '
                   'the failure; non-trivial = the faulted bundle raised after at least one seam '
-                  'crossing', budget={'quick': 900, 'thorough': 2400})
+                  'crossing', budget={'quick': 900, 'thorough': 1200})
 
 
 def run(tier, report):
@@ -325,12 +334,24 @@ def run(tier, report):
   chunks = [jobs[i::nchunks] for i in range(nchunks)]
   faults = raised = absorbed = 0
   viols = []
+  skipped = {}
+  import time
+  _DEADLINE[0] = time.time() + FAULT_BUDGET[tier]
   for part in pmap(run_fault_chunk, chunks):
+    for d, n in part.get('skipped', {}).items():
+      skipped[d] = skipped.get(d, 0) + n
     faults += part['faults']
     raised += part['raised']
     absorbed += part['absorbed']
     viols.extend(part['violations'])
   report.merge_violations(viols)
+  if skipped:
+    report.caps.append('time budget of %d s for the fault runs: %d of %d fault runs not executed (by depth '
+                       'of the faulted bundle: %s); chunks take the faults of shallower bundles first'
+                       % (FAULT_BUDGET[tier], sum(skipped.values()), len(jobs),
+                          {int(k): v for k, v in sorted(skipped.items())}))
+    cov['exhaustive'] = False
+    cov['fault_runs_skipped'] = sum(skipped.values())
   cov['faults_injected'] = faults
   cov['faulted_bundles_raised'] = raised
   cov['faults_absorbed'] = absorbed
